@@ -2,6 +2,7 @@ package main
 
 import (
 	"fmt"
+	"go/token"
 	"go/types"
 	"os"
 	"reflect"
@@ -1217,7 +1218,9 @@ func genMutable(ctx TaggedStructContext, genMethod fp.Set[string]) fp.Set[string
 
 			tag := v.Tag
 
-			if !strings.HasPrefix(v.Name, "_") {
+			// an embedded unexported type stays an unexported field of the Mutable struct; a json
+			// name tag on it would make encoding/json treat it as a settable field and panic
+			if !strings.HasPrefix(v.Name, "_") && !(v.Embedded && !token.IsExported(v.Name)) {
 				if ts.Tags.Contains("@fp.JsonTag") || ts.Tags.Contains("@fp.Json") {
 					if _, ok := reflect.StructTag(tag).Lookup("json"); !ok {
 						if tag != "" {
